@@ -271,6 +271,14 @@ def expand_moltype(mt, restypes):
         a = res_atom_ids[ra][nreal_a - 1]
         b = res_atom_ids[rb][0]
         sec["bonds"].append(f"{a} {b} 1 {mt.get('link_len', 0.35)} 5000")
+        if mt.get("double_links"):
+            # ladder-like: a second bond between the same two residues (first real atom of the lower residue - last
+            # atom of the higher one), unless that is the same atom pair
+            a2 = res_atom_ids[ra][0]
+            rtb = rtype(rb, mt["residues"][rb])
+            b2 = res_atom_ids[rb][len(rtb["atoms"]) - len(rtb["vsites"]) - 1]
+            if (a2, b2) != (a, b):
+                sec["bonds"].append(f"{a2} {b2} 1 {round(mt.get('link_len', 0.35) + 0.1, 3)} 1000")
     return atoms, sec
 
 
